@@ -98,14 +98,23 @@ def _jsonable(x):
         return repr(x)
 
 
+REPLAY_TIMEOUT = 120
+
+
 def replay_file(path):
     """run one replay file in a fresh interpreter, concrete mode, no instrumentation.
     returns (failed: bool, output)"""
     env = dict(os.environ)
     env['SX_MODE'] = 'concrete'
     env['PYTHONPATH'] = ROOT + os.pathsep + env.get('PYTHONPATH', '')
-    p = subprocess.run([sys.executable, '-m', 'sx.replay', path], cwd=ROOT, env=env,
-                       stdout=subprocess.PIPE, stderr=subprocess.STDOUT, timeout=600)
+    try:
+        p = subprocess.run([sys.executable, '-m', 'sx.replay', path], cwd=ROOT, env=env,
+                           stdout=subprocess.PIPE, stderr=subprocess.STDOUT, timeout=REPLAY_TIMEOUT)
+    except subprocess.TimeoutExpired as e:
+        # the real driver did not finish on these inputs (e.g. it deadlocked): the candidate is not confirmed as a
+        # violation of the stated label, and is reported as a replay that did not terminate
+        out = (e.stdout or b'').decode('utf-8', 'replace') if isinstance(e.stdout, bytes) else (e.stdout or '')
+        return 3, out + '\nREPLAY: did not terminate within %d s on the real driver (hang or deadlock)\n' % REPLAY_TIMEOUT
     return p.returncode, p.stdout.decode('utf-8', 'replace')
 
 
